@@ -148,6 +148,68 @@ def gen(outdir, ops=None):
     print("%d mutants" % n)
 
 
+def gen_struct(outdir):
+    """Structural operators: a call statement done twice, two neighbouring statements swapped, a loop left after its first
+    round, a function left early, one side of a compound condition dropped."""
+    alld = os.path.join(outdir, "all")
+    os.makedirs(alld, exist_ok=True)
+    n = 0
+    index = []
+
+    def emit(rel, lines, nl, i, old, new):
+        nonlocal n
+        diff = "".join(difflib.unified_diff([x + "\n" for x in lines], [x + "\n" for x in nl], "a/" + rel, "b/" + rel, n=3))
+        mid = "s%04d_%s_%d" % (n, os.path.basename(rel)[:-3], i + 1)
+        open(os.path.join(alld, mid + ".diff"), "w").write(diff)
+        index.append({"id": mid, "file": rel, "line": i + 1, "old": old, "new": new})
+        n += 1
+
+    stmt = re.compile(r"^[A-Za-z_\*][A-Za-z0-9_\.\[\]\(\)&\*:<>,'\" \+\-=!\|]*;$")
+    for rel in lib_files():
+        text = open(os.path.join(REPO, rel)).read()
+        lines = text.split("\n")
+        ok = set(code_lines(text))
+        for i in sorted(ok):
+            l = lines[i]
+            st = l.strip()
+            ind = l[:len(l) - len(l.lstrip())]
+            is_call = bool(re.match(r"^[a-z_][A-Za-z0-9_\.\[\]\(\)&\*:<>,' ]*\((.*)\);$", st)) and not st.startswith("let ") and not st.startswith("return")
+            if is_call:
+                nl = list(lines); nl[i] = l + "\n" + l
+                emit(rel, lines, nl, i, st, st + " " + st)
+                nl = list(lines); nl[i] = l + "\n" + ind + "return;"
+                emit(rel, lines, nl, i, st, st + " return;")
+                nl = list(lines); nl[i] = ind + "return;\n" + l
+                emit(rel, lines, nl, i, st, "return; " + st)
+            # swap with the next statement of the same block
+            if i + 1 in ok and stmt.match(st) and not st.startswith("return"):
+                l2 = lines[i + 1]
+                st2 = l2.strip()
+                if stmt.match(st2) and l2[:len(l2) - len(l2.lstrip())] == ind and not st2.startswith("return"):
+                    nl = list(lines); nl[i], nl[i + 1] = l2, l
+                    emit(rel, lines, nl, i, st + " " + st2, st2 + " " + st)
+            # a loop: leave after the first round
+            if re.match(r"^(for |while |loop )", st) and st.endswith("{"):
+                depth = 0
+                for j in range(i, len(lines)):
+                    depth += lines[j].count("{") - lines[j].count("}")
+                    if depth == 0 and j > i:
+                        nl = list(lines); nl[j] = ind + "    break;\n" + lines[j]
+                        emit(rel, lines, nl, i, st, st + " .. break; }")
+                        break
+            # compound conditions
+            m = re.match(r"^(.*\bif )(.+) (&&|\|\|) (.+) \{$", l)
+            if m and "(" not in m.group(2).split("&&")[0][-1:] :
+                a, b = m.group(2), m.group(4)
+                if a.count("(") == a.count(")") and b.count("(") == b.count(")"):
+                    nl = list(lines); nl[i] = m.group(1) + a + " {"
+                    emit(rel, lines, nl, i, st, nl[i].strip())
+                    nl = list(lines); nl[i] = m.group(1) + b + " {"
+                    emit(rel, lines, nl, i, st, nl[i].strip())
+    json.dump(index, open(os.path.join(outdir, "index.json"), "w"), indent=1)
+    print("%d mutants" % n)
+
+
 def run(outdir, workers=7):
     alld = os.path.join(outdir, "all")
     surv = os.path.join(outdir, "survivors")
@@ -221,6 +283,8 @@ if __name__ == "__main__":
         gen(sys.argv[2], OPS2)
     elif cmd == "gen3":
         gen(sys.argv[2], OPS3)
+    elif cmd == "gen4":
+        gen_struct(sys.argv[2])
     elif cmd == "run":
         run(sys.argv[2], int(sys.argv[3]) if len(sys.argv) > 3 else 7)
     elif cmd == "triage":
